@@ -31,5 +31,8 @@ cActsJac == {"JacEval", "SensEval"}
 cActsPredict == {"SetEstimate", "Predict"}
 cActsUpdate == {"SetEstimate", "Update"}
 cActsAll == {"ModelEval", "JacEval", "SensEval", "SetEstimate", "Predict", "Update"}
+cActsTransform == {"DefaultEstimate", "TransformRow"}
+cZAbs == <<RI(1), RI(-2), RQ(1,2), RI(3), RI(0), RI(-1), RI(2), RQ(-3,2)>>
+cShapesT == {[nS |-> a, nC |-> b, nK |-> c, sens |-> s] : a \in 1..2, b \in 0..2, c \in 0..1, s \in {<<1>>, <<2>>, <<1, 2>>, <<2, 1>>, <<1, 1, 2>>}}
 cActsFilter == {"SetEstimate", "Predict", "Update"}
 ====
